@@ -200,6 +200,84 @@ impl<B: Sc> Sc for Dual<B> {
 }
 pub type D64 = Dual<f64>;
 
+/// Value + running error scale: `s` bounds, in units of the unit roundoff, the absolute error a floating-point
+/// evaluation of the same expression can accumulate - the rounding of every operation (its own magnitude) plus the
+/// errors of its operands carried through it. Data are taken as exact. `Dual<VA>` therefore yields derivatives whose
+/// scale includes the terms they are summed from AND the amplified rounding of the forward values they are built from
+/// (an adjoint of 3000 times a sum that cancels to 1e-8 is uncertain by 3000 times the rounding of that sum).
+#[derive(Clone, Copy, Debug)]
+pub struct VA {
+    pub v: f64,
+    pub s: f64,
+}
+impl Add for VA {
+    type Output = VA;
+    fn add(self, o: VA) -> VA {
+        let v = self.v + o.v;
+        VA { v, s: self.s + o.s + v.abs() }
+    }
+}
+impl Sub for VA {
+    type Output = VA;
+    fn sub(self, o: VA) -> VA {
+        let v = self.v - o.v;
+        VA { v, s: self.s + o.s + v.abs() }
+    }
+}
+impl Mul for VA {
+    type Output = VA;
+    fn mul(self, o: VA) -> VA {
+        let v = self.v * o.v;
+        VA { v, s: self.s * o.v.abs() + self.v.abs() * o.s + v.abs() }
+    }
+}
+impl Div for VA {
+    type Output = VA;
+    fn div(self, o: VA) -> VA {
+        let v = self.v / o.v;
+        VA { v, s: (self.s * o.v.abs() + self.v.abs() * o.s) / (o.v * o.v) + v.abs() }
+    }
+}
+impl Neg for VA {
+    type Output = VA;
+    fn neg(self) -> VA {
+        VA { v: -self.v, s: self.s }
+    }
+}
+impl Sc for VA {
+    fn detach(self) -> VA {
+        self
+    }
+    fn c(x: f64) -> VA {
+        VA { v: x, s: 0.0 }
+    }
+    fn zero() -> VA {
+        VA { v: 0.0, s: 0.0 }
+    }
+    fn val(self) -> f64 {
+        self.v
+    }
+    fn exp(self) -> VA {
+        let e = self.v.exp();
+        VA { v: e, s: e * self.s + e }
+    }
+    fn ln(self) -> VA {
+        let l = self.v.ln();
+        VA { v: l, s: self.s / self.v.abs() + l.abs() }
+    }
+    fn powf(self, e: f64) -> VA {
+        let p = self.v.powf(e);
+        VA { v: p, s: if e == 0.0 { 0.0 } else { (e * self.v.powf(e - 1.0)).abs() * self.s } + p.abs() }
+    }
+    fn sigmoid(self) -> VA {
+        let sg = stable_sigmoid(self.v);
+        VA { v: sg, s: sg * (1.0 - sg) * self.s + sg }
+    }
+    fn ste_relu(self) -> VA {
+        VA { v: if self.v > 0.0 { self.v } else { 0.0 }, s: self.s }
+    }
+}
+
 /// Value + absolute-path-sum tangent: `a` bounds the sum over all paths of |product of local derivatives|,
 /// i.e. the magnitude of the terms a derivative is made of (used to scale tolerances in the smooth class).
 #[derive(Clone, Copy, Debug)]
